@@ -301,6 +301,22 @@ def run_shard(shard: dict) -> Res:
             if back != o:
                 res.violate("roundtrip-after-other-conversions", f"snes_to_rom({a:#x}) = {back if not isinstance(back, int) else hex(back)} after other conversions, expected {o:#x} ({mode})",
                             {"kind": "batch", "mode": mode, "o": o})
+        # one offset converted under all three modes, in every order: what one call answered must not colour the next
+        import itertools as _it
+
+        for perm in _it.permutations(MODES):
+            for _ in range(max(1, shard["n"] // 40)):
+                o = rng.choice([0, 1, 0x7FFF, 0x8000, 0x123456, 0x1FFFFF]) if rng.random() < 0.3 else rng.randrange(0x200000)
+                for mode in perm:
+                    res.count("mode_order_conversions")
+                    try:
+                        a = cx.cpu.rom_to_snes(o, cx.rt[mode])
+                    except Exception as e:  # noqa: BLE001
+                        a = type(e).__name__
+                    if a != textbook(o, mode):
+                        res.violate("rom-to-snes-after-other-mode", f"rom_to_snes({o:#x}, {mode}) = {a if not isinstance(a, int) else hex(a)} after the same offset was converted under "
+                                    f"{[m for m in perm[:perm.index(mode)]]}, textbook {textbook(o, mode):#x}", {"kind": "mode_order", "o": o, "perm": list(perm)})
+                        break
         res.sample({"kind": "batch", "conversions": len(fwd)})
     else:
         rng = random.Random(shard["seed"] ^ 0xC20)
@@ -331,6 +347,13 @@ def replay(w: dict) -> Res:
     warnings.simplefilter("ignore")
     res = Res()
     cx = Ctx()
+    if w["kind"] == "mode_order":
+        for mode in w["perm"]:
+            res.case(("mode_order", w["o"], mode), True)
+            a = cx.cpu.rom_to_snes(w["o"], cx.rt[mode])
+            if a != textbook(w["o"], mode):
+                res.violate("rom-to-snes-after-other-mode", f"rom_to_snes({w['o']:#x}, {mode}) = {a:#x} in the order {w['perm']}", w)
+        return res
     if w["kind"] == "batch":
         res.undecided("batch witnesses depend on the whole conversion history: re-run the shard")
         return res
